@@ -64,6 +64,7 @@ def check(run):
             del run.floors[before[1]:]
             run.note(rid, 'per-site analysis skipped (%s); the clause is decided by C07-DISCOVERY' % e, fn=disc)
     run.attempt(agg, run, p)
+    run.attempt(distinct, run, p)
     nocache_rule(run, 'C07-NOSHARED', p, ['tdda.constraints.db.drivers', 'tdda.constraints.db.constraints', 'tdda.constraints.baseconstraints'],
                  'statistics describe the table or frame at hand: no memoising decorator and no class-level container used as a cache in the '
                  'database handlers or the shared discovery/verification base (such a cache is keyed by name only and shared by every connection)')
@@ -259,6 +260,56 @@ def agg(run, p):
                '%s reads every row' % name if not lim else '%s truncates its input: %r' % (name, lim[0].value[:40]), fn=f,
                node=lim[0] if lim else None, nontrivial=False)
     run.floor('C07-AGG', sum(1 for o in run.obs if o.rule == 'C07-AGG'), 20)
+
+
+def distinct(run, p):
+    """the distinct values discovery sees in a database column are the column's distinct non-null values - the empty string, zero
+    and false are values"""
+    from ..pyeval import Interp, Obj, Unsupported, Raised
+    run.rule('C07-DISTINCT', 'get_database_unique_values, evaluated for sqlite with a stand-in execute_all that answers SELECT DISTINCT '
+                             '(with and without `IS NOT NULL`, with and without ORDER BY) over a column holding empty strings, zeros, '
+                             'false, duplicates and nulls, returns exactly the distinct non-null values, sorted - allowed_values and the '
+                             'string lengths are computed from this list')
+    sh = p.cls('SQLDatabaseHandler')
+    f = sh.methods.get('get_database_unique_values')
+    if f is None:
+        raise AnalysisError('SQLDatabaseHandler.get_database_unique_values vanished')
+    n = 0
+    for name, column in (('strings-with-empty', ['b', '', None, 'a', 'b', '']), ('numbers-with-zero', [3, 0, None, 0, 2]),
+                         ('all-null', [None, None]), ('plain', ['x', 'y'])):
+        for include_nulls in (False, True):
+            asked = []
+
+            def execute_all(sql, column=column, asked=asked):
+                asked.append(sql)
+                vals = list(column)
+                if 'IS NOT NULL' in sql.upper():
+                    vals = [v for v in vals if v is not None]
+                seen, out = set(), []
+                for v in vals:
+                    if v not in seen:
+                        seen.add(v)
+                        out.append(v)
+                if 'ORDER BY' in sql.upper():
+                    out = sorted([v for v in out if v is None]) if False else ([None] if None in out else []) + sorted(v for v in out if v is not None)
+                return [(v,) for v in out]
+            execute_all._pyeval_model = True
+            o = Obj(sh)
+            o.attrs.update(dbtype='sqlite', execute_all=execute_all)
+            try:
+                got = Interp(p).call(f, ['t', 'c'], {'include_nulls': include_nulls}, selfobj=o)
+            except Raised as e:
+                got = 'raises %s' % e
+            except Unsupported as e:
+                raise AnalysisError('get_database_unique_values is not evaluable: %s' % e)
+            n += 1
+            want = sorted({v for v in column if v is not None})
+            if include_nulls and None in column:
+                want = [None] + want
+            ok = isinstance(got, list) and got == want
+            run.ob('C07-DISTINCT', '%s::%s::%s:%s' % (f.rel, f.short, name, 'with-nulls' if include_nulls else 'non-null'), ok,
+                   '%s, include_nulls=%s: returns %r (the column holds %r)' % (name, include_nulls, got, want), fn=f)
+    run.floor('C07-DISTINCT', n, 8)
 
 
 def absent(run, p, disc, gmap):
